@@ -99,7 +99,7 @@ EXTRA = {
  "C04": " Later additions: allocation-count ladders as in C03 with the ledger audit, cut short around every power-of-two instruction count.",
  "C06": " Later additions: strings of 3..33 characters differing at every pair of positions in opposite directions, at one position, by a wide character, or by being a prefix.",
  "C13": " Later additions: length ladders (strings and arrays around every power of two up to 257, one wide character at every position, every index read from both ends, writes around it); literal-pristine family; self-consistency where the model is silent (U8): after replacing a character by zero or several characters the printed text, lengte and per-character reads from both ends must describe the same string.",
- "C17": " Later additions: deviation-bounded long sessions: four ordinary ten-line sessions, every crash point of every line with the rest of the session as continuation, and every insertion of one or two of 16 deviation lines at every position (62 000 sessions of up to 12 lines).",
+ "C17": " Later additions: deviation-bounded long sessions: four ordinary ten-line sessions, every crash point of every line with the rest of the session as continuation, and every insertion of one or two of 40 deviation lines at every position. Also drives the REAL interactive prompt: the repository's command-line program (dev and release build) fed sessions on standard input, its output compared with the session model prompt by prompt (2 200 sessions quick), it must survive every failing line and end at end of input.",
  "C16": " Later additions: the batch has 40 programs (values equal under == but not identical, e.g. 0.0 / -0.0, 1 / 1.0); one 6 000-program history; a symbol-table scan for writable statics; violations carry the worker's evaluation log so that replay reproduces; recursion to within two levels of the deepest frame for 9 frame sizes in the profile table. Also runs the repository's own command-line program, built from /repo in the plain dev profile (no optimisation) and in the release profile, one process per case with an 8 MiB stack, on long-run ladders (runs of white space / comment lines / long tokens at 2^10..2^18 (2^21), counted constructs, nesting around and beyond the parser's limit, run-time depth): no process is killed, both builds print the same, closed-form results where known.",
 }
 for k, v in EXTRA.items():
